@@ -115,15 +115,18 @@ func builtinsHandle(c map[string]J) map[string]J {
 	var args, iargs, earlier []string
 	var unboundPos []int
 	n := 0
+	vname := map[int]string{}
 	if opt("cells") == "1" { // the instantiated list arguments as chains of './2 cells
 		jt.CellLists = true
 		defer func() { jt.CellLists = false }()
 	}
 	for i, a := range pat {
 		if a.([]J)[0] == "v" {
+			// (the variable is named by the pattern: two positions may hold the same variable)
 			unboundPos = append(unboundPos, i)
-			args = append(args, fmt.Sprintf("V%d", i+1))
-			iargs = append(iargs, fmt.Sprintf("V%d", i+1))
+			vname[i] = fmt.Sprintf("V%d", jt.Int(a.([]J)[1]))
+			args = append(args, vname[i])
+			iargs = append(iargs, vname[i])
 		} else {
 			t := jt.Render(specValue(a, &n))
 			args = append(args, t)
@@ -168,7 +171,7 @@ func builtinsHandle(c map[string]J) map[string]J {
 			cn := jt.NewCanon(nil)
 			var sel []J
 			for _, i := range unboundPos {
-				cv := m[fmt.Sprintf("V%d", i+1)]
+				cv := m[vname[i]]
 				cn.Env = cv.env
 				sel = append(sel, cn.Term(cv.term))
 			}
